@@ -6,6 +6,7 @@ import SpecVerif.Model.Levinson
 import SpecVerif.Model.Sides
 import SpecVerif.Model.Arma
 import SpecVerif.Model.Burg
+import SpecVerif.Model.Minvar
 import SpecVerif.Model.Estimators
 import SpecVerif.Model.Eigen
 import SpecVerif.Model.Mtm
@@ -363,12 +364,10 @@ def handle (cmd : String) (hd : List String) (vs : List (List K)) : Reply K :=
       if m = 0 || nfft = 0 then .error "value" else
       needTw nfft (fun t =>
         let x := vecAt vs 0
-        if m = 1 then
-          let rho := (burgInit x).rho
-          .ok [minvarPsd t [1] rho (scalAt vs 1) nfft, [1], []]
+        if m = 1 then .error "value"   -- arburg(X, 0) raises ValueError
         else
         match arburg x (m - 1) false (fun _ _ => false) with
-        | .ok st => .ok [minvarPsd t ((1 : K) :: st.a) st.rho (scalAt vs 1) nfft, (1 : K) :: st.a, st.ref]
+        | .ok _ => let o := minvar t x m (scalAt vs 1) nfft; .ok [o.psd, o.ar, o.ref]
         | .error e => .error e)
   | "minvarident" =>
       -- minvarident order | x    → [ψ_K (K < m)], [Σ_{i-j=K} (R⁻¹)_{ij}] with R the Toeplitz matrix of the Burg model
